@@ -198,10 +198,12 @@ type track struct {
 	Ch, Tr, Mt, Ext, Lang string
 	init                  []byte
 	segs                  [][]byte
+	preload               bool // the init segment is put on disk as init_org.* before the run (media-first upload)
+	inexact               bool // the receiver may renumber / re-time the segment: it is looked up by its mdat payload
 }
 
 type scenario struct {
-	kind      string // replay | conflict | conc
+	kind      string // replay | conflict | conc | start | startconc | rounds | burst
 	chans     []string
 	tracks    []*track
 	auth      string // none | default | channel
@@ -211,11 +213,13 @@ type scenario struct {
 	clHeader  bool
 	steps     [][2]string
 	pred      *genLine
+	variant   string         // start / rounds: data set and shift class
+	newest    map[string]int // rounds: number the timeline MPD of a channel must end at (by construction), else absent
 }
 
 func (s *scenario) shape() string {
 	var b strings.Builder
-	fmt.Fprintf(&b, "%s|%v|%v|%v|", s.auth, s.repcfg, s.streamURL, s.clHeader)
+	fmt.Fprintf(&b, "%s|%s|%v|%v|%v|", s.variant, s.auth, s.repcfg, s.streamURL, s.clHeader)
 	for _, t := range s.tracks {
 		fmt.Fprintf(&b, "%s/%s:%s:%s,", t.Ch, t.Tr, t.Mt, t.Lang)
 	}
@@ -271,6 +275,7 @@ type upRes struct {
 	status int
 	body   string // start of the response body ("" after a panic caught by the router's Recoverer)
 	stored bool
+	file   string // inexact tracks: name of the file that carries the uploaded payload
 }
 
 type run struct {
@@ -280,7 +285,9 @@ type run struct {
 	cancel  context.CancelFunc
 	w       *writer // nil in reference runs
 	nProc   atomic.Int64
+	nEv     atomic.Int64 // serial number of process events (the outgoing number k need not be unique)
 	created sync.Map // ch -> *atomic.Int64
+	started sync.Map // ch -> true once a channel goroutine reported the channel as started
 }
 
 var curRun atomic.Pointer[run]
@@ -305,7 +312,10 @@ func hook(ev string, kv map[string]any) {
 		_, known := fill[track]
 		if r.w != nil {
 			seq, _ := kv["seqNr"].(int64)
-			r.w.Emit(tr.E{"ev": "process", "ch": kv["ch"], "tr": track, "k": int(seq), "complete": complete, "known": known})
+			r.w.Emit(tr.E{"ev": "process", "ch": kv["ch"], "tr": track, "k": int(seq), "n": int(r.nEv.Add(1)), "complete": complete, "known": known})
+		}
+		if st, _ := kv["started"].(bool); st {
+			r.started.Store(kv["ch"], true)
 		}
 		if complete {
 			r.nProc.Add(1)
@@ -325,6 +335,18 @@ func newRun(sc *scenario, root string, w *writer) (*run, error) {
 		return nil, err
 	}
 	r := &run{sc: sc, dir: dir, router: router, cancel: cancel, w: w}
+	for _, t := range sc.tracks {
+		if t.preload {
+			td := filepath.Join(dir, t.Ch, t.Tr)
+			if err := os.MkdirAll(td, 0755); err == nil {
+				err = os.WriteFile(filepath.Join(td, "init_org"+t.Ext), t.init, 0644)
+			}
+			if err != nil {
+				cancel()
+				return nil, err
+			}
+		}
+	}
 	curRun.Store(r)
 	return r, nil
 }
@@ -335,7 +357,34 @@ func (r *run) close() {
 	os.RemoveAll(r.dir)
 }
 
-func (r *run) upload(t *track, k int) upRes {
+func (r *run) upload(t *track, k int) upRes { return r.uploadBody(t, k, nil) }
+
+// dirHashes: media files of a track directory with their content hashes.
+func dirHashes(dir string) map[string][32]byte {
+	res := map[string][32]byte{}
+	entries, _ := os.ReadDir(dir)
+	for _, e := range entries {
+		if e.IsDir() || strings.HasPrefix(e.Name(), "init") {
+			continue
+		}
+		if data, err := os.ReadFile(filepath.Join(dir, e.Name())); err == nil {
+			res[e.Name()] = sha256.Sum256(data)
+		}
+	}
+	return res
+}
+
+// mdatOf returns the payload of the first mdat box (what no rewriting of numbers / times touches).
+func mdatOf(data []byte) []byte {
+	p, sz, ok := findBox(data, "mdat")
+	if !ok {
+		return nil
+	}
+	return data[p+8 : p+sz]
+}
+
+// uploadBody makes one upload; wrap (optional) replaces the request body reader (gated / slow body).
+func (r *run) uploadBody(t *track, k int, wrap func(io.Reader) io.ReadCloser) upRes {
 	name, body := "init", t.init
 	if k >= 0 {
 		name, body = fmt.Sprintf("%d", k), t.segs[k]
@@ -345,6 +394,9 @@ func (r *run) upload(t *track, k int) upRes {
 		url = fmt.Sprintf("/upload/%s/Streams(%s%s)", t.Ch, t.Tr, t.Ext)
 	}
 	req := httptest.NewRequest(http.MethodPut, url, bytes.NewReader(body))
+	if wrap != nil {
+		req.Body = wrap(bytes.NewReader(body))
+	}
 	if r.sc.clHeader {
 		req.Header.Set("Content-Length", fmt.Sprint(len(body)))
 	}
@@ -353,6 +405,11 @@ func (r *run) upload(t *track, k int) upRes {
 		req.SetBasicAuth(user, pswd)
 	case "channel":
 		req.SetBasicAuth(user+t.Ch, pswd+t.Ch)
+	}
+	// inexact tracks: the track directory before the upload (a track never has two uploads at a time)
+	var before map[string][32]byte
+	if k >= 0 && t.inexact {
+		before = dirHashes(filepath.Join(r.dir, t.Ch, t.Tr))
 	}
 	rr := httptest.NewRecorder()
 	r.router.ServeHTTP(rr, req)
@@ -367,6 +424,28 @@ func (r *run) upload(t *track, k int) upRes {
 	}
 	got, err := os.ReadFile(filepath.Join(r.dir, t.Ch, t.Tr, stored))
 	res.stored = err == nil && bytes.Equal(got, body)
+	if k >= 0 && t.inexact {
+		// a file of the upload's own track directory that is new or rewritten carries the uploaded media payload
+		res.stored = false
+		want := mdatOf(body)
+		td := filepath.Join(r.dir, t.Ch, t.Tr)
+		after := dirHashes(td)
+		names := make([]string, 0, len(after))
+		for n := range after {
+			names = append(names, n)
+		}
+		sort.Strings(names)
+		for _, n := range names {
+			if h, ok := before[n]; ok && h == after[n] {
+				continue
+			}
+			if got, err := os.ReadFile(filepath.Join(td, n)); err == nil && want != nil && bytes.Equal(mdatOf(got), want) {
+				res.stored = true
+				res.file = n
+				break
+			}
+		}
+	}
 	if k < 0 && res.stored {
 		_, err = os.Stat(filepath.Join(r.dir, t.Ch, t.Tr, "init"+t.Ext))
 		res.stored = err == nil
@@ -412,10 +491,78 @@ type asOut struct {
 	TS    int      `json:"ts"`
 	Reps  []repOut `json:"reps"`
 }
+type tlOut struct {
+	Reps []string `json:"reps"`
+	SN   int      `json:"sn"`   // startNumber
+	NSeg int      `json:"nseg"` // segments in the SegmentTimeline
+	End  int      `json:"end"`  // number of the last segment
+}
 type outcome struct {
 	Files  [][2]string `json:"files"`
 	HasMPD bool        `json:"hasmpd"`
 	MPD    []asOut     `json:"mpd"`
+	HasTL  bool        `json:"hastl"`
+	TL     []tlOut     `json:"tl"`
+}
+
+// timeline reads manifest_timeline_nr.mpd of a channel: per AdaptationSet the representation ids and the
+// numbers the SegmentTimeline covers. Unparsable = one entry with reps ["unparsable"].
+func (r *run) timeline(ch string) (bool, []tlOut) {
+	res := []tlOut{}
+	data, err := os.ReadFile(filepath.Join(r.dir, ch, "manifest_timeline_nr.mpd"))
+	if err != nil {
+		return false, res
+	}
+	m, err := mpd.MPDFromBytes(data)
+	if err != nil || len(m.Periods) != 1 {
+		return true, append(res, tlOut{Reps: []string{"unparsable"}, End: -1})
+	}
+	for _, as := range m.Periods[0].AdaptationSets {
+		a := tlOut{Reps: []string{}, SN: -1, End: -1}
+		for _, rep := range as.Representations {
+			a.Reps = append(a.Reps, rep.Id)
+		}
+		if st := as.SegmentTemplate; st != nil && st.StartNumber != nil && st.SegmentTimeline != nil {
+			a.SN = int(*st.StartNumber)
+			for _, s := range st.SegmentTimeline.S {
+				if s != nil {
+					a.NSeg += int(s.R) + 1
+				}
+			}
+			a.End = a.SN + a.NSeg - 1
+		}
+		res = append(res, a)
+	}
+	return true, res
+}
+
+// manifestIDs: representation ids of manifest.mpd (nil, false when the file is missing).
+func (r *run) manifestIDs(ch string) ([]string, bool) {
+	ids := []string{}
+	data, err := os.ReadFile(filepath.Join(r.dir, ch, "manifest.mpd"))
+	if err != nil {
+		return ids, false
+	}
+	m, err := mpd.MPDFromBytes(data)
+	if err != nil || len(m.Periods) != 1 {
+		return append(ids, "unparsable"), true
+	}
+	for _, as := range m.Periods[0].AdaptationSets {
+		for _, rep := range as.Representations {
+			ids = append(ids, rep.Id)
+		}
+	}
+	return ids, true
+}
+
+func (s *scenario) own(ch string) []string {
+	ids := []string{}
+	for _, t := range s.tracks {
+		if t.Ch == ch {
+			ids = append(ids, t.Tr)
+		}
+	}
+	return ids
 }
 
 // final: files of a channel (relative path, hash) without the MPDs, and manifest.mpd as adaptation sets.
@@ -424,6 +571,7 @@ type outcome struct {
 // depends on the upload order.
 func (r *run) final(ch string) outcome {
 	o := outcome{Files: [][2]string{}, MPD: []asOut{}}
+	o.HasTL, o.TL = r.timeline(ch)
 	root := filepath.Join(r.dir, ch)
 	_ = filepath.Walk(root, func(p string, info os.FileInfo, err error) error {
 		if err != nil || info.IsDir() {
@@ -470,27 +618,47 @@ func (r *run) final(ch string) outcome {
 	return o
 }
 
-// sequential reference: the same uploads one after the other, in the given track order.
-func reference(sc *scenario, root string, order []*track) (map[string]outcome, error) {
+type planStep struct {
+	t *track
+	k int
+}
+
+// standardPlan: init uploads in the given order, then the media segments of each number in that order.
+func standardPlan(order []*track) []planStep {
+	var plan []planStep
+	for k := -1; k < 3; k++ {
+		for _, t := range order {
+			if k == -1 && t.preload {
+				continue
+			}
+			if k < len(t.segs) {
+				plan = append(plan, planStep{t, k})
+			}
+		}
+	}
+	return plan
+}
+
+// sequential reference: the same uploads one after the other. "One after the other" includes the work of the
+// channel goroutines: the next upload is made when the previous one has been processed completely.
+func reference(sc *scenario, root string, plan []planStep) (map[string]outcome, error) {
 	r, err := newRun(sc, root, nil)
 	if err != nil {
 		return nil, err
 	}
 	defer r.close()
 	n := int64(0)
-	for k := -1; k < 3; k++ {
-		for _, t := range order {
-			u := r.upload(t, k)
-			if u.status != 200 || !u.stored {
-				return nil, fmt.Errorf("reference run: upload %s/%s k=%d answered %d stored=%v", t.Ch, t.Tr, k, u.status, u.stored)
-			}
-			if k >= 0 {
-				n++
+	for _, st := range plan {
+		u := r.upload(st.t, st.k)
+		if u.status != 200 || !u.stored {
+			return nil, fmt.Errorf("reference run: upload %s/%s k=%d answered %d stored=%v", st.t.Ch, st.t.Tr, st.k, u.status, u.stored)
+		}
+		if st.k >= 0 {
+			n++
+			if !r.quiesce(n) {
+				return nil, fmt.Errorf("reference run did not quiesce")
 			}
 		}
-	}
-	if !r.quiesce(n) {
-		return nil, fmt.Errorf("reference run did not quiesce")
 	}
 	res := map[string]outcome{}
 	for _, ch := range sc.chans {
@@ -665,36 +833,55 @@ func sortedKeys(m map[string]*hstate) []string {
 
 type driver struct {
 	w      *writer
+	repo   string
 	root   string
 	assets map[string]*asset
-	refs   map[string][2]map[string]outcome
+	refs   map[string][]namedRef
 	nScen  int // global index of the next scenario
 }
 
-func (d *driver) refsFor(sc *scenario) ([2]map[string]outcome, error) {
-	key := sc.shape()
+type namedRef struct {
+	name  string
+	indep bool // the oracle assumes that all references with indep = true of a scenario agree
+	out   map[string]outcome
+}
+
+type namedPlan struct {
+	name  string
+	indep bool
+	plan  []planStep
+}
+
+// refsFor runs (once per configuration) the sequential reference plans of a scenario on the real code.
+func (d *driver) refsFor(sc *scenario, plans []namedPlan) ([]namedRef, error) {
+	key := sc.kind[:1] + sc.shape()
 	if r, ok := d.refs[key]; ok {
 		return r, nil
 	}
-	fwd := append([]*track(nil), sc.tracks...)
-	rev := make([]*track, len(fwd))
-	for i, t := range fwd {
-		rev[len(fwd)-1-i] = t
+	if plans == nil {
+		fwd := append([]*track(nil), sc.tracks...)
+		rev := make([]*track, len(fwd))
+		for i, t := range fwd {
+			rev[len(fwd)-1-i] = t
+		}
+		plans = []namedPlan{{"fwd", true, standardPlan(fwd)}, {"rev", true, standardPlan(rev)}}
 	}
-	var res [2]map[string]outcome
-	var err error
-	if res[0], err = reference(sc, d.root, fwd); err != nil {
-		return res, err
-	}
-	if res[1], err = reference(sc, d.root, rev); err != nil {
-		return res, err
+	var res []namedRef
+	for _, p := range plans {
+		out, err := reference(sc, d.root, p.plan)
+		if err != nil {
+			return nil, fmt.Errorf("%s: %w", p.name, err)
+		}
+		res = append(res, namedRef{p.name, p.indep, out})
 	}
 	d.refs[key] = res
 	return res, nil
 }
 
-func (d *driver) header(sc *scenario, extra tr.E) error {
-	refs, err := d.refsFor(sc)
+func (d *driver) header(sc *scenario, extra tr.E) error { return d.headerPlans(sc, extra, nil) }
+
+func (d *driver) headerPlans(sc *scenario, extra tr.E, plans []namedPlan) error {
+	refs, err := d.refsFor(sc, plans)
 	if err != nil {
 		return err
 	}
@@ -704,15 +891,16 @@ func (d *driver) header(sc *scenario, extra tr.E) error {
 	}
 	e := tr.E{"ev": "hdr", "sc": d.nScen, "kind": sc.kind, "nch": len(sc.chans), "ntr": len(sc.tracks), "auth": sc.auth,
 		"repcfg": sc.repcfg, "sender": sc.sender, "streamurl": sc.streamURL, "clhdr": sc.clHeader, "tracks": tl,
-		"shape": sc.shape()}
+		"shape": sc.shape(), "variant": sc.variant}
 	for k, v := range extra {
 		e[k] = v
 	}
 	d.w.Emit(e)
-	for i, name := range []string{"fwd", "rev"} {
+	for _, nr := range refs {
 		for _, ch := range sc.chans {
-			o := refs[i][ch]
-			d.w.Emit(tr.E{"ev": "ref", "ch": ch, "order": name, "files": o.Files, "hasmpd": o.HasMPD, "mpd": o.MPD})
+			o := nr.out[ch]
+			d.w.Emit(tr.E{"ev": "ref", "ch": ch, "order": nr.name, "indep": nr.indep, "files": o.Files, "hasmpd": o.HasMPD,
+				"mpd": o.MPD, "hastl": o.HasTL, "tl": o.TL})
 		}
 	}
 	return nil
@@ -729,7 +917,12 @@ func (d *driver) footer(r *run, nOK int64, agree string) {
 			n = int(c.(*atomic.Int64).Load())
 		}
 		created[ch] = n
-		d.w.Emit(tr.E{"ev": "final", "ch": ch, "files": o.Files, "hasmpd": o.HasMPD, "mpd": o.MPD, "objects": n})
+		newest := -1
+		if v, ok := r.sc.newest[ch]; ok {
+			newest = v
+		}
+		d.w.Emit(tr.E{"ev": "final", "ch": ch, "files": o.Files, "hasmpd": o.HasMPD, "mpd": o.MPD, "hastl": o.HasTL, "tl": o.TL,
+			"objects": n, "own": r.sc.own(ch), "newest": newest})
 	}
 	d.w.Emit(tr.E{"ev": "end", "quiesced": q, "mediaok": int(nOK), "agree": agree})
 	d.w.Commit()
@@ -774,7 +967,10 @@ func (d *driver) replay(g *genLine, variant int) error {
 	}
 	tracks, chans := replayTracks(d.assets, handlers)
 	sc := &scenario{kind: "replay", chans: chans, tracks: tracks, auth: []string{"none", "default", "channel"}[variant%3],
-		repcfg: variant%2 == 1, clHeader: variant%4 >= 2, steps: g.Steps, pred: g}
+		repcfg: variant%2 == 1, clHeader: variant%4 >= 2, steps: g.Steps, pred: g, newest: map[string]int{}}
+	for _, ch := range chans {
+		sc.newest[ch] = 2
+	}
 	if g.Conflict {
 		sc.kind = "conflict"
 	}
@@ -860,11 +1056,13 @@ func (d *driver) concShape(seed int64, shapeIdx int) *scenario {
 	rng := rand.New(rand.NewSource(seed*7919 + int64(shapeIdx)))
 	nch := 1 + rng.Intn(4)
 	sc := &scenario{kind: "conc", auth: []string{"none", "default", "channel"}[rng.Intn(3)], repcfg: rng.Intn(2) == 0,
-		sender: rng.Intn(3) == 0, streamURL: rng.Intn(3) == 0, clHeader: rng.Intn(2) == 0}
+		sender: rng.Intn(3) == 0, streamURL: rng.Intn(3) == 0, clHeader: rng.Intn(2) == 0, newest: map[string]int{}}
+	uniq := rng.Intn(2) == 0 // channel-unique track names (a foreign MPD is then recognisable by its ids)
 	langs := []string{"", "swe", "eng", "nor"}
 	for c := 0; c < nch; c++ {
 		ch := fmt.Sprintf("ch%d", c+1)
 		sc.chans = append(sc.chans, ch)
+		sc.newest[ch] = 2
 		ntr := 2 + rng.Intn(7)
 		nv, na, nt := 0, 0, 0
 		for i := 0; i < ntr; i++ {
@@ -885,6 +1083,9 @@ func (d *driver) concShape(seed int64, shapeIdx int) *scenario {
 				nt++
 				name = fmt.Sprintf("s%d", nt)
 				lang = langs[rng.Intn(len(langs))]
+			}
+			if uniq {
+				name = ch + "_" + name
 			}
 			sc.tracks = append(sc.tracks, mkTrack(d.assets, ch, name, mt, lang))
 		}
@@ -987,6 +1188,13 @@ func Main(args []string) error {
 	seed := fs.Int64("seed", 1, "seed")
 	nShapes := fs.Int("shapes", 12, "number of random concurrent configurations")
 	reps := fs.Int("reps", 4, "repetitions of every concurrent configuration")
+	sgen := fs.String("sgen", "", "file with TLC-generated start-transition behaviours (ReceiverConcStart)")
+	nSets := fs.Int("startsets", 2, "number of test data sets used for the start scenarios")
+	nStartConc := fs.Int("startconc", 4, "repetitions of the start transition with plain goroutines per data set")
+	nRoundsSc := fs.Int("rounds", 4, "number of many-rounds scenarios (several channels in one storage directory)")
+	nBurst := fs.Int("bursts", 3, "number of burst configurations (all handlers released at once at one gate)")
+	burstReps := fs.Int("burstreps", 4, "repetitions of every burst configuration and gate")
+	roundLen := fs.Int("roundlen", 12, "rounds per many-rounds scenario")
 	from := fs.Int("from", 0, "index of the first scenario to run (the parent restarts a child that the Go runtime killed)")
 	repo := fs.String("repo", os.Getenv("VERIF_REPO"), "repository root")
 	root := fs.String("tmp", "", "directory for the receivers' storage")
@@ -1012,7 +1220,7 @@ func Main(args []string) error {
 	}
 	app.VerifHook = hook
 	app.VerifGateReached = gateReached
-	d := &driver{w: w, root: *root, assets: assets, refs: map[string][2]map[string]outcome{}}
+	d := &driver{w: w, repo: *repo, root: *root, assets: assets, refs: map[string][]namedRef{}}
 	if *from == 0 {
 		w.Emit(tr.E{"ev": "note", "what": "nil_config_probe", "result": nilConfigProbe(*root, assets)})
 		w.Commit()
@@ -1034,17 +1242,57 @@ func Main(args []string) error {
 			gens = append(gens, g)
 		}
 	}
-	total := len(gens) + *nShapes**reps
+	var sgens []sgenLine
+	if *sgen != "" {
+		data, err := os.ReadFile(*sgen)
+		if err != nil {
+			return err
+		}
+		for i, line := range strings.Split(strings.TrimSpace(string(data)), "\n") {
+			if line == "" {
+				continue
+			}
+			var g sgenLine
+			if err := json.Unmarshal([]byte(line), &g); err != nil {
+				return fmt.Errorf("sgen line %d: %w", i+1, err)
+			}
+			sgens = append(sgens, g)
+		}
+	}
+	if *nSets > len(startSets) {
+		*nSets = len(startSets)
+	}
+	// data sets rotate with the seed
+	set := func(i int) startSet { return startSets[(i+int(*seed))%len(startSets)] }
+	nStart := len(sgens) * *nSets
+	nSC := *nStartConc * *nSets
+	nConc := *nShapes * *reps
+	nB := *nBurst * 2 * *burstReps
+	total := len(gens) + nStart + nSC + nConc + *nRoundsSc + nB
 	for idx := *from; idx < total; idx++ {
 		d.nScen = idx
-		if idx < len(gens) {
-			if err := d.replay(&gens[idx], idx+int(*seed)); err != nil {
-				return err
-			}
-			continue
+		c := idx
+		var err error
+		switch {
+		case c < len(gens):
+			err = d.replay(&gens[c], c+int(*seed))
+		case c < len(gens)+nStart:
+			c -= len(gens)
+			err = d.start(set(c/len(sgens)), &sgens[c%len(sgens)])
+		case c < len(gens)+nStart+nSC:
+			c -= len(gens) + nStart
+			err = d.start(set(c / *nStartConc), nil)
+		case c < len(gens)+nStart+nSC+nConc:
+			c -= len(gens) + nStart + nSC
+			err = d.conc(d.concShape(*seed, c / *reps), c%*reps)
+		case c < len(gens)+nStart+nSC+nConc+*nRoundsSc:
+			c -= len(gens) + nStart + nSC + nConc
+			err = d.rounds(d.roundsScenario(*seed, c, *roundLen), *roundLen)
+		default:
+			c -= len(gens) + nStart + nSC + nConc + *nRoundsSc
+			err = d.burst(d.burstScenario(*seed, c/(2**burstReps)), []string{"reg", "add"}[(c / *burstReps)%2], c%*burstReps)
 		}
-		c := idx - len(gens)
-		if err := d.conc(d.concShape(*seed, c / *reps), c%*reps); err != nil {
+		if err != nil {
 			return err
 		}
 	}
